@@ -2,7 +2,7 @@
 ID = "C18"
 PROPS = "Props/C18.v"
 COQ_TIMEOUT = 5400   # Coq build of this property incl. rebuilt dependencies; generous: on a loaded machine a rebuild after an upstream edit took > 1500 s
-GEN = ["dec"]
+GEN = ["dec", "asn1schemas"]
 LEGS = [{"driver": "c18", "runner": ("dec", "Extract/ExtractDec.v", "Dec_model"), "timeout": 3000}]
 
 TECHNIQUE = ("Coq proofs of totality (never Panic, never Hang) and of a linear step bound over byte-level models with checked "
@@ -53,14 +53,14 @@ RULE = ("corpus = valid encodings made by the library itself (SM2 and RSA certif
         "non-trivial when its input is non-empty; distinct = distinct case text")
 
 MODELLED = {"BER", "UNP", "PAD", "SDG", "CUM", "CMA", "DCP", "P8E", "SKP", "HPU", "HPR", "SSU", "CRQ", "KXC", "KXS", "KXE",
-            "A1S", "A1C", "A1X", "A1T1", "A1T2"}
+            "A1S", "A1C", "A1X", "A1T1", "A1T2", "A1G"}
 GATED = {"SDG", "DCP", "P8E", "KXC", "KXS", "KXE"}   # the model decides only the gate: err | pass
 
 
 def _input(f):
     if f[0] == "D":
         return f[3]
-    if f[0] in ("UNP", "PAD", "SDG"):
+    if f[0] in ("UNP", "PAD", "SDG", "A1G"):
         return f[3]
     return f[2]
 
